@@ -241,12 +241,35 @@ def untilLoop (me : Bool) (seps : List Bytes) (seplen : Nat) : St → Bytes → 
     | .softEof nb => (.ok [], { s with buf := nb }, sched)
     | .popType nb => (.typeError, { s with buf := nb }, sched)
     | .more rbuf' cur' =>
-      if s.paused || s.eof then
+      -- `if (self._read_paused and buf) or self._eof_received:` — `_read_paused` belongs to the whole session
+      -- (stdout and stderr count together), so the call gives up on a pause only when THIS stream has data to return
+      if (s.paused && !rbuf'.isEmpty) || s.eof then
         let s1 := { s with buf := s.buf.drop cur', bufLen := s.bufLen - rbuf'.length }
         (.incomplete rbuf', (maybeResume s1).1, sched)
       else match sched with
         | [] => (.blocked, s, [])
         | g :: rest => untilLoop me seps seplen (absorb s g) rbuf' cur' rest
+
+/-- the `while True` loop of `readuntil` BEFORE the repair of finding A-C19-3: the call gave up whenever the
+    session had paused reading (`if self._read_paused or self._eof_received:`), also when the pause was caused by
+    the other stream's unread data and nothing at all was buffered for this one (kept for the witness theorems) -/
+def untilLoopPreFix (me : Bool) (seps : List Bytes) (seplen : Nat) : St → Bytes → Nat → Sched → Res × St × Sched
+  | s, rbuf, cur, sched =>
+    match scan me seps seplen rbuf cur (s.buf.drop cur) with
+    | .found res nb idx =>
+      let s1 := { s with buf := nb, bufLen := s.bufLen - idx }
+      (.ok res, (maybeResume s1).1, sched)
+    | .excPartial part nb => (.incomplete part, { s with buf := nb, bufLen := s.bufLen - part.length }, sched)
+    | .excRaise e nb => (.raised e, { s with buf := nb }, sched)
+    | .softEof nb => (.ok [], { s with buf := nb }, sched)
+    | .popType nb => (.typeError, { s with buf := nb }, sched)
+    | .more rbuf' cur' =>
+      if s.paused || s.eof then
+        let s1 := { s with buf := s.buf.drop cur', bufLen := s.bufLen - rbuf'.length }
+        (.incomplete rbuf', (maybeResume s1).1, sched)
+      else match sched with
+        | [] => (.blocked, s, [])
+        | g :: rest => untilLoopPreFix me seps seplen (absorb s g) rbuf' cur' rest
 
 def maxLen : List Bytes → Nat
   | [] => 0
@@ -281,8 +304,29 @@ def readline (s : St) (sched : Sched) : Res × St × Sched :=
   | (.incomplete part, s', r) => (.ok part, s', r)
   | x => x
 
+/-- `readline` of the code before the repair of A-C19-3 -/
+def readlinePreFix (s : St) (sched : Sched) : Res × St × Sched :=
+  match untilLoopPreFix false [[newline]] 1 s [] 0 sched with
+  | (.incomplete part, s', r) => (.ok part, s', r)
+  | x => x
+
 /-- `at_eof` -/
 def atEof (s : St) : Bool := s.eof && s.buf.isEmpty
+
+/-! ### the other stream of the same session
+
+  `_recv_buf_len`, `_limit` and `_read_paused` belong to the SESSION: a client process has one `St.buf` per
+  datatype (stdout, stderr) but one `bufLen` / `paused` for both.  Seen from the reader of one stream, the other
+  stream is an amount of bytes that counts in `bufLen` without being in `buf`. -/
+
+/-- `data_received(data, other_datatype)` with `len(data) = n` (+ `_maybe_pause_reading`) -/
+def otherDeliver (s : St) (n : Nat) : St :=
+  let s := { s with bufLen := s.bufLen + n }
+  if !s.paused && shouldPause s then { s with paused := true } else s
+
+/-- the application takes `n` buffered bytes out of the other stream (`read` on its reader: `_recv_buf_len -= n`,
+    then `_maybe_resume_reading`) -/
+def otherRead (s : St) (n : Nat) : St := (maybeResume { s with bufLen := s.bufLen - n }).1
 
 /-! ### scripts: what an application does with one reader over time -/
 
